@@ -293,6 +293,8 @@ class MachO(BinFormat):
                 sz = elt.size()
             for n in range(count):
                 data = self.__file.read(sz)
+                if len(data) < sz:
+                    raise MachOError("truncated table (%d/%d entries)" % (n, count))
                 tab.append(elt(data))
         return tab
 
